@@ -16,7 +16,6 @@ set_option linter.unusedTactic false
 set_option linter.unreachableTactic false
 namespace Bridge
 variable {α : Type} [Field α] [LinearOrder α] [IsStrictOrderedRing α]
-  [HasSqrt α] [HasExp α] [HasLog α] [HasSin α] [HasCos α] [HasAsin α] [HasRpow α] [HasPi α] [HasRound α] [HasFloor α]
 
 /-- the gaussian clip of the current source is one of the two modelled argument orders -/
 theorem rel_gaussian (mean std mn mx z : α) :
